@@ -20,9 +20,9 @@ def scripts_for(tier, rng):
     return out
 
 
-def run(prop, tier, rng):
+def run(prop, tier, rng, only=None):
     """-> (violations, extra, trace-stats)"""
-    scripts = scripts_for(tier, rng)
+    scripts = [only] * 100 if only else scripts_for(tier, rng)      # a replay repeats the scenario: threads decide
     by_id = {s["id"]: s for s in scripts}
     d = vlib.workdir("drv_jobmt")
     sp, tp = os.path.join(d, "scripts.ndjson"), os.path.join(d, "traces.ndjson")
